@@ -193,6 +193,15 @@ def run_prog_property(ctx, prop_files, gen_case, classes, n_quick, n_thorough, r
         r1, _ = run_pair(ctx, [scripts[i]], variant, exact=exact, timeout=3 * timeout, model=False)
         ctx.extra.setdefault("timeouts_rerun_alone", []).append({"script": scripts[i][:200], "second_run": r1[0][-60:]})
         impl[i] = r1[0]
+    # a sanitizer / signal fault must reproduce when the script is run alone (a violation needs a replay): faults seen only once under full
+    # parallel load (threaded-writer scripts without close read the file while the writer thread still runs) are counted, not reported
+    flt = [i for i, a in enumerate(impl) if "FAULT" in a.rsplit(";", 1)[-1] and "TIMEOUT" not in a.rsplit(";", 1)[-1]
+           and not cases[i][1].get("known")]
+    for i in flt[:12]:
+        again = [run_pair(ctx, [scripts[i]], variant, exact=exact, timeout=timeout, model=False)[0][0] for _ in range(2)]
+        if not any("FAULT" in a.rsplit(";", 1)[-1] for a in again):
+            ctx.extra.setdefault("faults_not_reproduced_alone", []).append({"script": scripts[i][:300], "first_run": impl[i][-80:]})
+            impl[i] = again[0]
     nviol = 0
     dist = {}
     for (script, meta), a, m in zip(cases, impl, mod):
